@@ -22,6 +22,41 @@ def BoxIn (m : Mesh) (item : Region) : Prop :=
   item.ndim = m.ndim ∧ ∀ a, a < m.ndim →
     m.region.lo a ≤ item.lo a ∧ item.lo a < item.hi a ∧ item.hi a ≤ m.region.hi a
 
+/-- the upper index of a box inside the region is a valid index, not below the lower one -/
+theorem upperIdx_range (m : Mesh) (hm : m.Inv) (item : Region) (hbox : BoxIn m item) (a : Nat) (ha : a < m.ndim) :
+    0 ≤ upperIdx m a (item.hi a) ∧ upperIdx m a (item.hi a) < (m.nAt a : Int) ∧
+    ((m.indexAx a (item.lo a) : Nat) : Int) ≤ upperIdx m a (item.hi a) := by
+  have hc := inv_cell_pos hm ha
+  have hn := inv_n_pos hm ha
+  obtain ⟨b1, b2, b3⟩ := hbox.2 a ha
+  obtain ⟨u1, u2⟩ := upperIdx_bounds m a (item.hi a) hc
+  obtain ⟨c1, _⟩ := index_contains m a (item.lo a) hn (inv_lo_lt_hi hm ha) b1 (by linarith)
+  have hhi := hi_eq m a hn
+  have r1 : (-1 : Rat) < (upperIdx m a (item.hi a) : Rat) := by
+    by_contra hcon; rw [not_lt] at hcon
+    have : ((upperIdx m a (item.hi a) : Rat) + 1) * m.cellAt a ≤ 0 :=
+      mul_nonpos_of_nonpos_of_nonneg (by linarith) hc.le
+    linarith
+  have r2 : (upperIdx m a (item.hi a) : Rat) < (m.nAt a : Rat) := by
+    by_contra hcon; rw [not_lt] at hcon
+    have := mul_le_mul_of_nonneg_right hcon hc.le
+    linarith
+  have r3 : (m.indexAx a (item.lo a) : Rat) < (upperIdx m a (item.hi a) : Rat) + 1 := by
+    by_contra hcon; rw [not_lt] at hcon
+    have := mul_le_mul_of_nonneg_right hcon hc.le
+    linarith
+  have i1 : (-1 : Int) < upperIdx m a (item.hi a) := by exact_mod_cast r1
+  have i2 : upperIdx m a (item.hi a) < (m.nAt a : Int) := by exact_mod_cast r2
+  have i3 : ((m.indexAx a (item.lo a) : Nat) : Int) < upperIdx m a (item.hi a) + 1 := by exact_mod_cast r3
+  omega
+
+/-- for a box inside the region the clip of the upper index does nothing -/
+theorem upperIdxC_eq (m : Mesh) (hm : m.Inv) (item : Region) (hbox : BoxIn m item) (a : Nat) (ha : a < m.ndim) :
+    upperIdxC m a (item.hi a) = upperIdx m a (item.hi a) := by
+  obtain ⟨h1, h2, _⟩ := upperIdx_range m hm item hbox a ha
+  unfold upperIdxC clipInt
+  rw [if_neg (by omega), if_neg (by omega)]
+
 /-- lower / upper cell index of the covering block along axis `a` -/
 def blockLo (m : Mesh) (item : Region) (a : Nat) : Nat := m.indexAx a (item.lo a)
 def blockHi (m : Mesh) (item : Region) (a : Nat) : Nat := (upperIdx m a (item.hi a)).toNat
@@ -52,6 +87,9 @@ theorem getRegion_inv (m : Mesh) (hm : m.Inv) (item : Region) (hbox : BoxIn m it
           · rename_i r hr
             obtain ⟨_, _, p3⟩ := point2index_inv m _ _ hi1
             obtain ⟨_, _, c13⟩ := index2point_inv m _ _ hc1
+            have hclip : (tab m.ndim fun a => upperIdxC m a (item.hi a)) = tab m.ndim fun a => upperIdx m a (item.hi a) :=
+              tab_congr _ _ _ (fun a ha => upperIdxC_eq m hm item hbox a ha)
+            rw [hclip] at hc2
             obtain ⟨_, c22, c23⟩ := index2point_inv m _ _ hc2
             obtain ⟨e1, e2, e3, e4, e5, _, e7, e8, e9, e10, e11⟩ := regionMk_inv _ _ _ _ _ _ hr
             obtain ⟨g1, g2, g3, g4, _⟩ := mkCell_inv _ _ _ _ h
